@@ -373,11 +373,50 @@ def check(ctx):
     ctx.clause = "3b-dispatch"
     from .c02 import _registry
     _registry(ctx, repo)
+    _fallback_only_for_unknown(ctx, repo)
 
     # ---- clause 9: published identity -------------------------------------------------
     ctx.clause = "9-published-identity"
     _docs(ctx, repo, rows)
     _reference(ctx, repo, rows)
+
+
+def _fallback_only_for_unknown(ctx, repo):
+    """DiameterAVP.load falls back to a generic AVP only when the (vendor, code) pair is NOT in the dictionary: the handler that
+    keeps the raw AVP may catch the registry miss (KeyError) and nothing else - a dictionary class that refuses the value
+    (DataTypeError, AVPAttributeValueError ...) must reject the stream, not be by-passed."""
+    avp = ctx.need(repo.cls("bromelia.base.DiameterAVP"), "DiameterAVP")
+    ld = ctx.need(avp.methods.get("load"), "DiameterAVP.load")
+    n_try = 0
+    for t in [n for n in walk_no_nested(ld) if isinstance(n, ast.Try)]:
+        if not any(isinstance(c, ast.Call) and call_name(c).endswith("get_avp_class") for b in t.body for c in ast.walk(b)):
+            continue
+        n_try += 1
+        for h in t.handlers:
+            falls_back = not any(isinstance(x, ast.Raise) for b in h.body for x in ast.walk(b))
+            if not falls_back:
+                continue
+            names = []
+            if h.type is None:
+                names = ["BaseException"]
+            else:
+                for e in (h.type.elts if isinstance(h.type, ast.Tuple) else [h.type]):
+                    r_ = repo.resolve(avp.mod, e.id) if isinstance(e, ast.Name) else None
+                    if r_ is not None and r_.kind == "const" and isinstance(r_.node, ast.Tuple):
+                        names += [ast.unparse(x).split(".")[-1] for x in r_.node.elts]
+                    else:
+                        names.append(ast.unparse(e).split(".")[-1])
+            extra = sorted(n for n in names if n not in ("KeyError", "LookupError"))
+            ctx.decide(not extra, "R-ESC/dispatch-fallback", f"{avp.qual}.load", avp.where(h),
+                       "the generic-AVP fallback is taken only for a registry miss (KeyError)",
+                       f"the handler that keeps the AVP as a generic DiameterAVP also catches {extra}: a known (vendor, code) whose "
+                       f"dictionary class refuses the value (wrong width, bad grammar, value not enumerated) is no longer rejected but "
+                       f"decoded as an untyped AVP carrying the malformed data - the class no longer enforces its type on decode",
+                       key="fallback_types")
+    if n_try == 0:
+        # no handler around the dispatch: nothing a dictionary class raises can be swallowed here
+        ctx.hold("R-ESC/dispatch-fallback", f"{avp.qual}.load", avp.where(ld), "the dispatch is not wrapped by a handler", key="fallback_types",
+                 nontrivial=False)
 
 
 def _pure_delegation(fn):
